@@ -256,7 +256,9 @@ pub fn run_case(ctx: &mut Ctx, fam: &str, k: u64, r: &mut Rng) {
             if kind.is_alias() {
                 continue;
             }
-            let any_tracked = fau[i].iter().any(|t| *t);
+            // the closure of a reachable node runs when it recorded a derivative: some operand tracked at use, or the
+            // derivative was passed unconditionally
+            let any_tracked = fau[i].iter().any(|t| *t) || kind.forces_tracking();
             if reach[i] && any_tracked {
                 // only user-defined nodes are observable at the API boundary
                 expect_call[i] = kind.is_custom();
